@@ -227,3 +227,39 @@ pub(crate) async fn handle_inbound_request(
 
     Ok(req)
 }
+
+/// Verification hooks: build request values over a caller-supplied stream, exactly as
+/// [`handle_inbound_request`] does after reading the first message.
+#[cfg(libp2p_verif)]
+impl ReservationReq {
+    pub fn verif_new(
+        io: Stream,
+        reservation_duration: Duration,
+        max_circuit_duration: Duration,
+        max_circuit_bytes: u64,
+    ) -> Self {
+        ReservationReq {
+            substream: Framed::new(io, prost_codec::Codec::new(MAX_MESSAGE_SIZE)),
+            reservation_duration,
+            max_circuit_duration,
+            max_circuit_bytes,
+        }
+    }
+}
+
+#[cfg(libp2p_verif)]
+impl CircuitReq {
+    pub fn verif_new(
+        dst: PeerId,
+        io: Stream,
+        max_circuit_duration: Duration,
+        max_circuit_bytes: u64,
+    ) -> Self {
+        CircuitReq {
+            dst,
+            substream: Framed::new(io, prost_codec::Codec::new(MAX_MESSAGE_SIZE)),
+            max_circuit_duration,
+            max_circuit_bytes,
+        }
+    }
+}
